@@ -91,7 +91,7 @@ def build(sess, name="x"):
                 if creds is None:
                     cr = "none"
                 else:
-                    cr = "%d %d %s %s" % (creds.pid, creds.cid, creds.ticket.session_key.hex(), creds.ticket.internal.hex())
+                    cr = "%d %d %s %s" % (creds.pid, creds.cid, hx(creds.ticket.session_key), hx(creds.ticket.internal))
                 add("connect %s %d 1 10 %d %d %d %s" % (C, tk, rc[0], rc[1], rc[2], cr), ("op", "c", tk))
             elif op in ("send", "sendu"):
                 ep, conn = (C, "c") if side == "c" else (S, srv_key)
